@@ -70,6 +70,10 @@ pub struct RefState {
     pub worker_ids_mentioned: BTreeSet<u32>,
     pub queue_ids_mentioned: BTreeSet<u32>,
     pub live_queues: BTreeSet<u32>,
+    /// allocation id -> queue (AllocationQueued records)
+    pub allocation_queue: BTreeMap<String, u32>,
+    /// queue -> resources of the last worker that connected from one of its allocations
+    pub queue_resources: BTreeMap<u32, String>,
     pub server_uid: Option<String>,
     pub n_records: usize,
     pub kinds: BTreeMap<String, u64>,
@@ -232,8 +236,18 @@ pub fn fold(path: &Path) -> anyhow::Result<RefState> {
             .entry(payload_kind(&event.payload).to_string())
             .or_default() += 1;
         match event.payload {
-            EventPayload::WorkerConnected(w, _) => {
+            EventPayload::WorkerConnected(w, cfg) => {
                 st.worker_ids_mentioned.insert(w.as_num());
+                let alloc = cfg
+                    .extra
+                    .get("JobManager")
+                    .and_then(|s| serde_json::from_str::<serde_json::Value>(s).ok())
+                    .and_then(|v| v.get("allocation_id").and_then(|a| a.as_str().map(|s| s.to_string())));
+                if let Some(a) = alloc
+                    && let Some(q) = st.allocation_queue.get(&a).copied()
+                {
+                    st.queue_resources.insert(q, format!("{:?}", cfg.resources));
+                }
             }
             EventPayload::WorkerLost(w, reason) => {
                 st.worker_ids_mentioned.insert(w.as_num());
@@ -370,8 +384,13 @@ pub fn fold(path: &Path) -> anyhow::Result<RefState> {
                 st.queue_ids_mentioned.insert(id);
                 st.live_queues.remove(&id);
             }
-            EventPayload::AllocationQueued { queue_id, .. } => {
+            EventPayload::AllocationQueued {
+                queue_id,
+                allocation_id,
+                ..
+            } => {
                 st.queue_ids_mentioned.insert(queue_id);
+                st.allocation_queue.insert(allocation_id, queue_id);
             }
             EventPayload::AllocationStarted(queue_id, _)
             | EventPayload::AllocationFinished(queue_id, _) => {
